@@ -46,6 +46,11 @@ def RtInput.wf (i : RtInput) : Bool :=
 /-- the units that must arrive, in order -/
 def RtInput.expected (i : RtInput) : List Bytes := i.nals.filter (fun n => !isDropped n)
 
+/-- every unit with the MTU of its call -/
+def RtCall.tagged (c : RtCall) : List (Nat × Bytes) := c.units.map (fun u => (c.mtu.toNat, u.2))
+def RtInput.tagged (i : RtInput) : List (Nat × Bytes) := i.calls.flatMap RtCall.tagged
+def RtInput.expectedT (i : RtInput) : List (Nat × Bytes) := i.tagged.filter (fun u => !isDropped u.2)
+
 /-- one payload as seen by the harness -/
 structure PktObs where
   payload : Bytes
@@ -64,12 +69,13 @@ def resBytes : Res Bytes → Bytes
   | .ok b => b
   | _ => []
 
-/-- RFC 6184 shape of a payload sequence w.r.t. the units it must carry -/
-def shapeOk (expected : List Bytes) (pkts : List PktObs) : Bool :=
+/-- RFC 6184 shape of a payload sequence w.r.t. the units it must carry (`expT` = the same units
+    with the MTU of their call, for the aggregation claim) -/
+def shapeOk (disable : Bool) (expT : List (Nat × Bytes)) (pkts : List PktObs) : Bool :=
   match parse (pkts.map (·.payload)) with
   | some plan =>
-    plan.all Item.wf && plan.flatMap Item.nals == expected &&
-    pkts.map (·.head) == plan.flatMap Item.heads
+    plan.all Item.wf && plan.flatMap Item.nals == expT.map (·.2) &&
+    pkts.map (·.head) == plan.flatMap Item.heads && aggOk disable expT plan
   | none => false
 
 /-- the receiver reproduces the units, framed -/
@@ -78,7 +84,7 @@ def decodeOk (avc : Bool) (expected : List Bytes) (pkts : List PktObs) : Bool :=
 
 def rtOk (i : RtInput) (o : RtObs) : Bool :=
   !o.panicked && o.calls.length == i.calls.length &&
-  (!i.wf || (shapeOk i.expected o.pkts && decodeOk i.avc i.expected o.pkts))
+  (!i.wf || (shapeOk i.disable i.expectedT o.pkts && decodeOk i.avc i.expected o.pkts))
 
 /-! ### c10.dec -/
 structure DecInput where
